@@ -11,6 +11,7 @@ mod pool;
 mod printer;
 mod props;
 mod refint;
+mod sched;
 mod shard;
 mod slices;
 
@@ -65,6 +66,7 @@ fn main() {
         "check" => check(&args[2..]),
         "replay" => replay(&args[2..]),
         "selftest" => selftest(),
+        "solo16" => props::c16::solo_main(args.get(2).and_then(|s| s.parse().ok()).unwrap_or(0)),
         _ => usage(),
     }
 }
@@ -173,12 +175,62 @@ fn check(a: &[String]) {
     let cfg = Cfg { tier, seed };
     let pc = pool::PoolCfg::for_tier(tier);
     let t0 = Instant::now();
-    let res = pool::run_pool(&id, &cfg, &pc);
+    let mut res = pool::run_pool(&id, &cfg, &pc);
+    if p.both_profiles() {
+        // the same enumeration on the harness built with debug assertions and overflow checks
+        let dev = std::path::PathBuf::from("/verif/.target/devchk/nlmc");
+        if !dev.exists() {
+            eprintln!("MACHINERY: {} is missing (./check builds it for this property)", dev.display());
+            std::process::exit(2);
+        }
+        let mut pc2 = pool::PoolCfg::for_tier(tier);
+        pc2.exe = Some(dev);
+        let res2 = pool::run_pool(&id, &cfg, &pc2);
+        res.summaries.extend(res2.summaries);
+        res.violations.extend(res2.violations);
+        res.machinery.extend(res2.machinery);
+        res.deaths.extend(res2.deaths);
+        res.complete = res.complete && res2.complete;
+    }
     let merged = pool::merge(&res.summaries);
     let wall = t0.elapsed().as_secs_f64();
 
     // violations: reported by workers, plus cases that killed or hung a worker
     let mut violations: Vec<Value> = res.violations.clone();
+    let mut profile_table = (0usize, 0usize, 0usize);
+    if p.both_profiles() {
+        // the (case, outcome) tables written by the two builds must be the same set
+        let read = |dev: bool| -> std::collections::HashSet<u64> {
+            let mut set = std::collections::HashSet::new();
+            for s in &res.summaries {
+                if s["debug_assertions"].as_bool() == Some(dev) {
+                    if let Some(path) = s["pair_file"].as_str() {
+                        if let Ok(bytes) = std::fs::read(path) {
+                            for c in bytes.chunks_exact(8) {
+                                set.insert(u64::from_le_bytes(c.try_into().unwrap()));
+                            }
+                        }
+                    }
+                }
+            }
+            set
+        };
+        let (rel, dev) = (read(false), read(true));
+        let diff = rel.symmetric_difference(&dev).count();
+        profile_table = (rel.len(), dev.len(), diff);
+        if diff > 0 {
+            violations.push(json!({
+                "index": 0, "class": "profiles",
+                "case": {"table": "profile-tables"},
+                "detail": format!("{diff} (program, outcome) entries differ between the release-like build ({} entries) and the debug-assertion build ({} entries): evaluation depends on the build profile", rel.len(), dev.len()),
+            }));
+        }
+    }
+    for s in &res.summaries {
+        if let Some(path) = s["pair_file"].as_str() {
+            let _ = std::fs::remove_file(path);
+        }
+    }
     violations.extend(res.deaths.iter().cloned());
     violations.sort_by_key(|v| v["index"].as_u64().unwrap_or(u64::MAX));
 
@@ -202,6 +254,11 @@ fn check(a: &[String]) {
         "worker_processes": pc.nshards,
         "worker_deaths": res.deaths.len(),
     });
+    if p.both_profiles() {
+        coverage["profile_table_entries_release"] = json!(profile_table.0);
+        coverage["profile_table_entries_debug"] = json!(profile_table.1);
+        coverage["profile_table_differences"] = json!(profile_table.2);
+    }
     if p.level == "model_checking" {
         coverage["states"] = json!(merged.counters.get("states").copied().unwrap_or(0));
         coverage["transitions"] = json!(merged.counters.get("transitions").copied().unwrap_or(0));
